@@ -21,7 +21,7 @@ func cmdForeachProbe(args []string) int {
 	r := newRng(c.seed)
 	for i := 0; i < c.n; i++ {
 		cr := r.fork()
-		fc := &feCase{CloseAfter: 1 + cr.intn(2), ParMode: "literal", Par: 1 + cr.intn(3), DelayMode: "random"}
+		fc := &feCase{CloseAfter: 1 + cr.intn(2), ClosureMs: -1, ParMode: "literal", Par: 1 + cr.intn(3), DelayMode: "random"}
 		fc.Items = feGenItems(cr, "k", 150+cr.intn(100), 0, 6, "random")
 		atomic.StoreInt64(&foreach.ProbeMax, 0)
 		atomic.StoreInt64(&foreach.ProbeStartedAfterCancel, 0)
